@@ -64,6 +64,14 @@ def letters():
         ('OUT FE', (0x3E, 0x05, 0xD3, 0xFE)),
         ('PUSH/POP', (0xE5, 0xF5, 0xD1, 0xC1)),
         ('EXX', (0xD9, 0x08)),
+        # every DD/FD-prefixed register-to-register load (IXh/IXl forms, and the ones the prefix does not modify): the
+        # M1 fetch accounting of prefixed instructions is per opcode
+        ('DD ld r,r', tuple(b for op in range(0x40, 0x80) if op != 0x76 and op & 7 != 6 and (op >> 3) & 7 != 6 for b in (0xDD, op))),
+        ('FD ld r,r', tuple(b for op in range(0x40, 0x80) if op != 0x76 and op & 7 != 6 and (op >> 3) & 7 != 6 for b in (0xFD, op))),
+        ('DD alu/inc', tuple(b for op in (0x24, 0x25, 0x2C, 0x2D, 0x84, 0x8D, 0x94, 0x9D, 0xA4, 0xAD, 0xB4, 0xBD, 0x09, 0x19, 0x29, 0x39, 0x23, 0x2B, 0x04, 0x80)
+                             for b in (0xDD, op))),
+        ('FD alu/inc', tuple(b for op in (0x24, 0x25, 0x2C, 0x2D, 0x84, 0x8D, 0x94, 0x9D, 0xA4, 0xAD, 0xB4, 0xBD, 0x09, 0x19, 0x29, 0x39, 0x23, 0x2B, 0x04, 0x80)
+                             for b in (0xFD, op))),
     ]
 
 
@@ -84,6 +92,9 @@ def build_program(letter, machine, im1):
     if machine == '128K':
         emit(0x01, 0xFD, 0x7F, 0x3E, 0x13, 0xED, 0x79)      # LD BC,7FFD ; LD A,13 ; OUT (C),A  (bank 3, ROM 1)
         emit(0x32, 0x00, 0xC0)                              # LD (C000),A
+        # page again through an alias of the port (A15 = 0 and A1 = 0 are all that is decoded)
+        emit(0x01, 0xFD, 0x3F, 0x3E, 0x14, 0xED, 0x79)      # LD BC,3FFD ; LD A,14 ; OUT (C),A  (bank 4, ROM 1)
+        emit(0x32, 0x01, 0xC0)                              # LD (C001),A
     # polling loop: IN A,(FE) ; INC HL ; LD (HL),A ; LD BC,7FFE ; IN E,(C) ; JR loop
     here = len(code)
     emit(0xDB, 0xFE, 0x23, 0x77, 0x01, 0xFE, 0x7F, 0xED, 0x58, 0x18, 0xF5)
